@@ -86,7 +86,7 @@ class ScriptedSource(ScheduleSource):
         T = clock.from_us(self.base_us + e["t_off_us"])
         if e.get("naive"):
             T = T.replace(tzinfo=None)
-        return ScheduledTask(task_name="t", labels={}, args=[e["id"]], kwargs={}, time=T, schedule_id=e["id"])
+        return ScheduledTask(task_name="t", labels={}, args=[e.get("tag", e["id"])], kwargs={}, time=T, schedule_id=e["id"])
 
     async def get_schedules(self) -> List[ScheduledTask]:
         k = self.n
